@@ -893,3 +893,105 @@ def g5(proj, rep):
                           f'pair is not (span, orthogonal complement) of one space', m, st)
     rep.count('G5.return_pairs', n)
     return n
+
+
+# ------------------------------------------------------------------------------------------------ G6
+RULES['G6'] = ('G6: every arm of gellmann_matrix is Hermitian and has Tr(G^2) = 2, and the diagonal arms are traceless and mutually orthogonal, for EVERY d and '
+               'index, decided symbolically: off-diagonal arms store a conjugate pair (a, conj a) with |a|^2 + |a|^2 = 2 at mirrored positions; the identity '
+               'arm stores d equal entries c with d c^2 = 2; the diagonal arm l stores l entries 1 and one entry -l scaled by s with s^2 (l + l^2) = 2 and '
+               'l*1 + (-l) = 0 (traceless, hence orthogonal to the identity arm and to every diagonal arm l\' > l, whose first l+1 entries are equal).')
+
+
+def g6(proj, rep):
+    from fractions import Fraction
+    rep.rule('G6', RULES['G6'])
+    f = proj.func(f'{GM}.gellmann_matrix')
+    m = f.module
+    n = 0
+    node = next((s for s in f.node.body if isinstance(s, ast.If)), None)
+    arms = []
+    while node is not None:
+        arms.append((ast.unparse(node.test).replace(' ', ''), node.body))
+        if len(node.orelse) == 1 and isinstance(node.orelse[0], ast.If):
+            node = node.orelse[0]
+        else:
+            arms.append(('else', node.orelse))
+            break
+
+    def asg(body, name):
+        return next((s.value for s in body if isinstance(s, ast.Assign) and isinstance(s.targets[0], ast.Name) and s.targets[0].id == name), None)
+    for test, body in arms:
+        data, i0, i1 = asg(body, 'data'), asg(body, 'ind0'), asg(body, 'ind1')
+        if data is None:
+            continue
+        n += 1
+        construct = f'{f.qual}[{test}]'
+        if isinstance(data, ast.List) and len(data.elts) == 2:
+            try:
+                a, b = [complex(ast.literal_eval(e)) for e in data.elts]
+            except Exception:
+                rep.undecided('G6', construct, 'pair not literal', m, data)
+                n -= 1
+                continue
+            mirrored = i0 is not None and i1 is not None and isinstance(i0, ast.List) and isinstance(i1, ast.List) \
+                and [ast.unparse(e) for e in i0.elts] == [ast.unparse(e) for e in reversed(i1.elts)]
+            if not mirrored:
+                rep.violation('G6', construct, f'positions ind0={ast.unparse(i0)}, ind1={ast.unparse(i1)} are not mirrored (r,c) / (c,r)', m, data)
+            elif b != a.conjugate():
+                rep.violation('G6', construct, f'entries {ast.unparse(data)} at mirrored positions are not a conjugate pair: the matrix is not Hermitian', m, data)
+            elif abs(a) ** 2 + abs(b) ** 2 != 2:
+                rep.violation('G6', construct, f'entries {ast.unparse(data)}: Tr(G^2) = {abs(a) ** 2 + abs(b) ** 2:g}, not 2', m, data)
+            else:
+                rep.ok('G6', construct, f'conjugate pair {ast.unparse(data)} at mirrored positions, Tr(G^2) = 2', m, data)
+            continue
+        t = ast.unparse(data).replace(' ', '')
+        if t in ('np.ones(d)*np.sqrt(2/d)', 'np.sqrt(2/d)*np.ones(d)'):
+            # d entries c with c^2 = 2/d -> d*c^2 = 2
+            rep.ok('G6', construct, 'd equal real entries c with d*c^2 = d*(2/d) = 2', m, data)
+            continue
+        if 'np.ones(d)' in t and 'sqrt' in t:
+            rep.violation('G6', construct, f'`{t}`: d equal entries c need c^2 = 2/d for Tr(G^2) = 2', m, data)
+            continue
+        # diagonal arm: s * np.array([1]*l + [-l])
+        mm = None
+        if isinstance(data, ast.BinOp) and isinstance(data.op, ast.Mult):
+            for sc, arr in ((data.left, data.right), (data.right, data.left)):
+                if isinstance(arr, ast.Call) and ast.unparse(arr.func).endswith('array') and arr.args and isinstance(arr.args[0], ast.BinOp) and isinstance(arr.args[0].op, ast.Add):
+                    mm = (sc, arr.args[0])
+        if mm is None:
+            rep.undecided('G6', construct, f'`{t[:60]}` not a recognised arm', m, data)
+            n -= 1
+            continue
+        sc, body_e = mm
+        lt, rt = ast.unparse(body_e.left).replace(' ', ''), ast.unparse(body_e.right).replace(' ', '')
+        se = SymEval({'i': Poly.var('l')})
+        # left: [c]*k ; right: [e]
+        try:
+            c = se.ev(body_e.left.left.elts[0])
+            k = se.ev(body_e.left.right)
+            e = se.ev(body_e.right.elts[0])
+        except Exception:
+            rep.undecided('G6', construct, f'entries `{lt}+{rt}` not recognised', m, data)
+            n -= 1
+            continue
+        c, k, e = Poly._coerce(c), Poly._coerce(k), Poly._coerce(e)
+        trace = c * k + e
+        sq = c * c * k + e * e
+        # scale^2 = num/den
+        st = ast.unparse(sc).replace(' ', '')
+        ok_scale = None
+        if st.startswith('np.sqrt(') and isinstance(sc, ast.Call) and isinstance(sc.args[0], ast.BinOp) and isinstance(sc.args[0].op, ast.Div):
+            num, den = Poly._coerce(se.ev(sc.args[0].left)), Poly._coerce(se.ev(sc.args[0].right))
+            ok_scale = (num * sq - den * 2) == Poly.const(0) if hasattr(Poly, 'const') else None
+        idx_ok = i0 is not None and ast.unparse(i0).replace(' ', '') == 'np.arange(i+1)' and ast.unparse(i1).replace(' ', '') == 'ind0'
+        if not (trace == Poly.const(0)):
+            rep.violation('G6', construct, f'entries `{lt}+{rt}` have trace {trace}, not 0: the diagonal element is not orthogonal to the identity element', m, data)
+        elif ok_scale is False:
+            rep.violation('G6', construct, f'scale `{st}`: scale^2 * sum of squares = ({ast.unparse(sc.args[0])}) * ({sq}) is not 2', m, data)
+        elif ok_scale is None or not idx_ok:
+            rep.undecided('G6', construct, f'scale `{st}` / positions not recognised', m, data)
+            n -= 1
+        else:
+            rep.ok('G6', construct, f'l entries {c} and one entry {e}: traceless, scale^2*(sum of squares) = 2 for every l', m, data)
+    rep.count('G6.arms', n)
+    return n
